@@ -10,12 +10,16 @@ PROP = {
             "w1 R w2 L x / w1 R L w2 L / w1 R F w2 L / w1 L R w2 x L for every pair of those writes; (4) random lists "
             "of up to 12 operations whose writes mix every class of unicode.IsSpace, near misses (U+200B, U+180E, "
             "U+FEFF), text and invalid UTF-8 (lone lead/continuation bytes, overlong, surrogate). All driven against "
-            "the real trimWriter through the verif hook and compared call by call with TW.step; distinct by case line",
+            "the real trimWriter through the verif hook and compared call by call with TW.step; distinct by case line. "
+            "hyphens: generated templates (tags, objects, raw/comment/capture blocks, loops; literal text padded with "
+            "several kinds of whitespace, adjacent text items merged into one literal text) with every subset (<=6 "
+            "hyphen positions) or 48 random subsets of the hyphens present, each rendered by the real engine and by the model",
     "trusted_base": COMMON_TB + ["unicode.IsSpace / utf8.DecodeRune / DecodeLastRune are modelled (Liquid/Utf8.lean) and compared on every tw case"],
     "assumptions": ["TW.step describes render/trimwriter.go: checked by the tw stream on every run",
                     "the erasure and adjacency laws are stated for writes that are valid UTF-8 (ValidOps); on invalid "
                     "bytes the erasure law is false (theorem tw_erasure_fails_on_invalid_utf8) and only "
-                    "tw_no_trim_identity / tw_trimRight_empty_write / tw_trimRight_persists apply"],
+                    "tw_no_trim_identity / tw_trimLeft_sees_last_write_only(_flag) / tw_buffer_is_last_write / "
+                    "tw_trimRight_empty_write / tw_trimRight_persists apply"],
 }
 
 TEXT = {
@@ -25,19 +29,29 @@ TEXT = {
             "(trim_subseq, trim_sublist), both agree after deleting all whitespace (trim_only_ws), a list without trims "
             "outputs the concatenation of its writes (no_trim_identity, erased_output_is_concat); a TrimLeft directly "
             "after / TrimRight directly before the write of a text acts as the write of the right-/left-stripped text "
-            "(trimLeft_adjacent, trimRight_adjacent, and the exact behaviour of blank or empty texts, of a pending flag, "
-            "of the empty write that consumes the flag, and of a TrimRight persisting across TrimLeft/Flush: "
-            "trimLeft_adjacent_noflag/_ws, trimRight_adjacent_flag/_ws, trimRight_empty_write, trimRight_persists_*). "
+            "for EVERY text at EVERY position, blank or empty text and a pending flag included "
+            "(trimLeft_adjacent_all, trimRight_adjacent_all, trim_both_adjacent; special cases trimLeft_adjacent, "
+            "trimRight_adjacent, trimLeft_adjacent_noflag, trimRight_adjacent_flag; blank text next to a hyphen is "
+            "deleted and nothing else is: trimLeft_adjacent_ws, trimRight_adjacent_ws; an empty write flushes and "
+            "clears the flag: empty_write_is_flush, trimRight_empty_write; a TrimRight persists across TrimLeft/Flush: "
+            "trimRight_persists_*). The repaired Write (2593661: always flush first) is expressed by "
+            "trimLeft_sees_last_write_only(_flag), trimLeft_keeps_earlier_write, write_commits_previous and "
+            "buffer_is_last_write: a TrimLeft never touches an earlier write, also when blank text stands between "
+            "two hyphens. "
             "Part B, bridge to the byte-level model TW.step for valid UTF-8: decode/encode round trip, "
             "bytes.TrimLeftFunc/TrimRightFunc(unicode.IsSpace) on encoded runes (tw_trimLeftSpace_encode, "
             "tw_trimRightSpace_encode, through utf8.DecodeLastRune), step-by-step simulation (tw_step_encode, "
             "tw_runOps_encode), hence all laws on bytes (tw_trim_only_ws, tw_trim_subseq, tw_trim_valid_sublist, "
-            "tw_trimLeft_adjacent*, tw_trimRight_adjacent*); tw_no_trim_identity holds for all bytes; "
+            "tw_trimLeft_adjacent*, tw_trimRight_adjacent*); tw_no_trim_identity, tw_trimLeft_sees_last_write_only(_flag), "
+            "tw_buffer_is_last_write, tw_trimRight_empty_write and tw_trimRight_persists hold for all bytes; "
             "tw_erasure_fails_on_invalid_utf8 shows the UTF-8 hypothesis is necessary. Part C: the output is the "
             "concatenation of the underlying write calls, one call at most per operation, only TrimLeft can issue an "
             "empty call. Each run compares TW.step with the real trimWriter call by call and evaluates on the real "
             "output: identity without trims (all bytes), whitespace-erasure and whitespace-deletion (valid UTF-8), and "
-            "every adjacency theorem as a metamorphic relation between two runs of the real trimWriter.",
+            "every adjacency theorem as a metamorphic relation between two runs of the real trimWriter (faces-text laws for "
+            "every text, blank included; trimLeft-sees-last-write-only on all byte strings: output = output up to the "
+            "earlier write + the stripped adjacent text + output of the rest). Template level (hyphens stream): erasure, "
+            "and, when every hyphen faces literal text, equality with the hyphen-free template whose adjacent text is stripped.",
     "design_ref": "DESIGN.md 6 C13",
     "note": NOTE + "Template-level lifting (hyphen_ops, hyphen_erasure, hyphen_faces_text over rendered templates) is added with the render model.",
     "technique": "Lean 4 proof (simulation invariant and commit lemma over operation lists, generic alphabet; UTF-8 codec "
